@@ -26,6 +26,12 @@ structure Leaves (c : Cfg) where
   sigKey : Nat → Bytes
   /-- KMAC output over a signed content -/
   mac : Sig → Bytes
+  /-- of an encapsulation with seed token `s`: the tag, the trap for tracer `t`, and for the target key with
+  token `k` the masked seed `F` and the ML-KEM ciphertext `E` -/
+  tag : Nat → Bytes
+  trap : Nat → Nat → Bytes
+  mask : Nat → Nat → Bytes
+  ct : Nat → Nat → Bytes
   scalar_len : ∀ t, (scalar t).length = c.sk
   scalar_ok : ∀ t, c.validSk (scalar t) = true
   point_len : ∀ t, (point t).length = c.pk
@@ -34,6 +40,11 @@ structure Leaves (c : Cfg) where
   ek_len : ∀ t, (ek t).length = c.ek
   sigKey_len : ∀ t, (sigKey t).length = SIGK
   mac_len : ∀ s, (mac s).length = SIG
+  tag_len : ∀ s, (tag s).length = TAG
+  trap_len : ∀ s t, (trap s t).length = c.pk
+  trap_ok : ∀ s t, c.validPk (trap s t) = true
+  mask_len : ∀ s k, (mask s k).length = SS
+  ct_len : ∀ s k, (ct s k).length = c.enc
 
 /-- UTF-8 bytes of a name -/
 def strBytes (s : String) : Bytes := s.toUTF8.data.toList
@@ -76,5 +87,12 @@ def Usk.toWire (L : Leaves c) (u : Usk) : WUsk :=
     ps := (tracerToks u.auth u.nps).map L.point
     secrets := u.secrets.map (fun p => (p.1, p.2.map (fun s => s.toWireSk L)))
     signature := u.sig.map L.mac }
+
+/-- `XEnc`: tag, one trap per tracer of the authority, the flavour, one `(E, F)` per target -/
+def XEnc.toWire (L : Leaves c) (x : XEnc) : WEnc :=
+  { tag := L.tag x.seed
+    c := (tracerToks x.auth x.ntraps).map (L.trap x.seed)
+    hyb := x.hybrid
+    encs := x.targets.map (fun t => (if x.hybrid then L.ct x.seed t.tok else [], L.mask x.seed t.tok)) }
 
 end CC
